@@ -189,6 +189,10 @@ func roundTrip(c *h.Ctx, p *path.Path, src string, docs []string, r *rand.Rand) 
 		}
 		c.Held("behaviour")
 	}
+	// a path that has been executed still prints what it printed before
+	if after := p.String(); after != s1 {
+		c.Violate("fixpoint", h.F("kind", "print-changed-by-use"), fmt.Sprintf("String() = %q before the path was executed, %q after", s1, after), cs)
+	}
 }
 
 // rtConcurrent: reading a stored path back is something many goroutines do at
